@@ -30,5 +30,4 @@ FInit == \E k \in 1..Len(Tr) :
            /\ more = v.more /\ cur = v.cur /\ asg = v.asg /\ crashes = 0 /\ plan = {} /\ sched = <<>>
 FNext == UNCHANGED <<vars, i>>
 FSpec == FInit /\ [][FNext]_<<vars, i>>
-FinalFileComplete == file.ok /\ backup.ok /\ backup = file
 =============================================================================
